@@ -9,4 +9,9 @@ def load_all(db):
         mod = importlib.import_module(f"contracts.{m.name}")
         if hasattr(mod, "register"):
             mod.register(db)
+    # second phase: adjustments that refer to contracts declared in other modules
+    for m in sorted(pkgutil.iter_modules(contracts.__path__), key=lambda m: m.name):
+        mod = importlib.import_module(f"contracts.{m.name}")
+        if hasattr(mod, "finalize"):
+            mod.finalize(db)
     return db
